@@ -184,7 +184,7 @@ fn subs() -> Vec<Sub> {
     };
     vec![
         exhaustive,
-        gen_sub("random", random, |t| t.pick(20_000, 1_000_000), check),
+        gen_sub("random", random, |t| t.pick(300_000, 1_000_000), check),
     ]
 }
 
